@@ -166,3 +166,12 @@ def run(res, facts, tier):
     _run_c08_prev_repr(res, facts, tier)
     from . import c04_repr
     c04_repr.run_c08_rule(res, facts, tier)
+
+
+_run_c08_prev_surrogate = run
+
+
+def run(res, facts, tier):
+    _run_c08_prev_surrogate(res, facts, tier)
+    from . import c08_surrogate
+    c08_surrogate.run_rule(res, facts, tier)
